@@ -41,7 +41,7 @@ var c05Pool = func() []Val {
 	}
 	out = append(out, dtV("2020-02-29T04:30Z"), dtV("2020-02-29T04Z"), dtV("2020-02-29T05Z"), dtV("2020-02-29T15:30:00+05:00"), dtV("2020-02-28T20:30:00-14:00"))
 	out = append(out, timeV("10:30:00.25"), timeV("10:30:00.250"), timeV("10:30:01"), timeV("09"), timeV("10:29"))
-	out = append(out, iv(3), dv("3.0"), dv("3.00"), dv("2.99999999999999999999"), sv("b"), sv("B"), sv("ab"), sv("é"), sv("z"), sv("日"), qv("1000", "mg"), qv("1", "g"), qv("2", "days"), qv("2", "day"))
+	out = append(out, iv(3), dv("3.0"), dv("3.00"), dv("2.99999999999999999999"), sv("b"), sv("B"), sv("ab"), sv("é"), sv("z"), sv("日"), qv("1000", "mg"), qv("1", "g"), qv("2", "days"), qv("2", "day"), qv("1", "Mg"), qv("2", "MG"))
 	seen := map[string]bool{}
 	var uniq []Val
 	for _, v := range out {
@@ -208,7 +208,7 @@ func c05GenNear(s Src) c05Case {
 		case 0:
 			b = qv(a.S+".0", a.U)
 		case 1:
-			b = qv(a.S, pickOne(s, []string{"mg", "g", "kg", "1", "days", "day"}))
+			b = qv(a.S, pickOne(s, []string{"mg", "g", "kg", "1", "days", "day", "Mg", "MG", "Kg", strings.ToUpper(a.U), strings.ToLower(a.U)}))
 		case 2:
 			b = qv(a.S+".001", a.U)
 		case 3:
@@ -270,7 +270,7 @@ func c05GenVal(s Src) Val {
 	case 5:
 		return timeV(fmt.Sprintf("%02d:%02d:%02d.%03d", s.Intn(24), s.Intn(60), s.Intn(60), s.Intn(1000)))
 	}
-	return qv(strconv.Itoa(s.Range(-1000, 1000)), pickOne(s, []string{"mg", "kg", "1", "days", "year"}))
+	return qv(strconv.Itoa(s.Range(-1000, 1000)), pickOne(s, []string{"mg", "kg", "1", "days", "year", "Mg", "m", "M"}))
 }
 
 // c05NearTemporal: the same instant at another offset, a neighbour one unit of the last
